@@ -62,6 +62,9 @@ def the_forms(W):
         "only_bilinear": f * inner(grad(u), grad(v)) * dx,
         "only_linear": f * v * dx + k * v * ds,
         "variable_wrapped": ufl.variable(u + f) * v * dx,
+        # two copies of one form made with replace(): the Variable nodes share their label but not their content
+        "theta_variable": (lambda F0: 0.5 * F0 + 0.5 * ufl.replace(F0, {k: W["q"], f: k}))(ufl.variable(k * u - f) * v * dx),
+        "theta_variable_ds": (lambda F0: F0 + 2 * ufl.replace(F0, {k: W["q"]}))(ufl.variable(k * u) * v * dx + ufl.variable(k * f) * v * ds),
         "neg": -(u * v - f * v) * dx,
     }
 
